@@ -434,7 +434,7 @@ def caps_for(tier):
     return (1, 2) if tier == "quick" else (1, 2, 4)
 
 
-def generic_check(prop, tier, own, scns, plans, rule, gens=None, extra_assume=(), models=None):
+def generic_check(prop, tier, own, scns, plans, rule, gens=None, extra_assume=(), models=None, deep=None):
     t0 = time.time()
     vlib.TIME_BUDGET = 60 if tier == "quick" else 240
     vlib.MM_MAX_EVENTS_PER_FILE = 150000 if tier == "quick" else 600000
@@ -461,6 +461,10 @@ def generic_check(prop, tier, own, scns, plans, rule, gens=None, extra_assume=()
                         scns = scns + [hs]
         cov["scenarios"] = len(scns)
         concurrent_stage(prop, wd, scns, v, cov, plans)
+    if deep:
+        # a few scenarios with their own, much larger plan
+        cov["scenarios"] = cov.get("scenarios", 0) + len(deep[0])
+        concurrent_stage(prop, wd, deep[0], v, cov, deep[1], label="deep")
     rc = v.finish()
     cov["known_findings_printed"] = sorted(v.known_printed.keys())
     vlib.write_evidence(prop, tier, "model_checking", cov, time.time() - t0, len(v.violations),
@@ -555,10 +559,18 @@ def check_C04(tier):
             # under its clone / view
             sc.add_stream_scn("C04a", caps=caps[:2]) +
             sc.with_drop_yield(sc.uni_traffic("C04y", "mpmc", caps=caps[:2]) + sc.traffic("C04y", "bcast", caps=caps[:1])[:3]))
-    return generic_check("C04", tier, ["C04", "C04C05"], scns, plans_for(tier), RULE_CONC +
+    # + the bounded tree restricted to preemptions of one victim thread, three deep (a consumer that loses a cursor
+    # race, is overtaken by its sibling and is then lapped inside its clone needs three preemptions of one thread)
+    plans = plans_for(tier) + [("victim", 1200 if tier == "quick" else 20000, 3)]
+    return generic_check("C04", tier, ["C04", "C04C05"], scns, plans, RULE_CONC +
                          "; the payload's Clone and the view closure contain a scheduling point, so the real code is "
                          "interleaved inside the clone/view" + RULE_IMPL,
-                         models=[impl_model_stage(["spmc_b", "disc_b", "view", "bview", "bcast2", "sibdrop_b"], keep=("spmc_b2", "sibdrop_b2"))])
+                         models=[impl_model_stage(["spmc_b", "disc_b", "view", "bview", "bcast2", "sibdrop_b"], keep=("spmc_b2", "sibdrop_b2"))],
+                         # a consumer overtaken by two siblings that take one value each and leave, on a ring that is
+                         # refilled: the victim enumeration three deep with a large cap (measured: the seeded change
+                         # C04-n2 shows in about 1 of 3 800 of these schedules, never on the unchanged tree)
+                         deep=(sc.overtaken("C04o", caps=(1, 2)) + sc.overtaken("C04o", family="mpmc", caps=(1, 2)),
+                               [("victim", 40000 if tier == "quick" else 400000, 3)]))
 
 
 def check_C05(tier):
